@@ -101,7 +101,7 @@ type c09 struct{}
 func (c09) ID() string    { return "C09" }
 func (c09) Level() string { return "exploration" }
 func (c09) Rule() string {
-	return "cases = histories over {Solve, AppendClause(c)}: base problems (empty over 0..2 variables, T2 with <=1 clause, S3 with <=2 clauses) x 1 appended constraint from the full alphabet (clauses of length 1..3 incl. repeated literals, tautologies and one fresh variable; NewCardClause with every degree; NewPBClause with weights in {1,2} and every degree 1..sum+1) x Solve placements; 2 appended constraints from a reduced alphabet x all 4 Solve placements; 3 appended short clauses; a seeded catalogue of random formulas fed clause by clause to a live solver (with a cardinality and a PB constraint in the middle). Each history runs once per heuristic choice list (<=1 deviation over all Solve calls of the history). Oracle: truth table of base AND everything appended so far, after every Solve; Unsat is sticky. Non-trivial = some Solve after an append had to search (decision or conflict) or the verdict changed along the history."
+	return "cases = histories over {Solve, AppendClause(c)}: base problems (empty over 0..2 variables, T2 with <=1 clause, S3 with <=2 clauses) x 1 appended constraint from the full alphabet (clauses of length 1..3 incl. repeated literals, tautologies and one fresh variable; H5: constraints introducing two variables never seen before (either order, also with a gap in the numbering) as pairs under every Solve placement and triples from a reduced alphabet; NewCardClause with every degree; NewPBClause with weights in {1,2} and every degree 1..sum+1) x Solve placements; 2 appended constraints from a reduced alphabet x all 4 Solve placements; 3 appended short clauses; a seeded catalogue of random formulas fed clause by clause to a live solver (with a cardinality and a PB constraint in the middle). Each history runs once per heuristic choice list (<=1 deviation over all Solve calls of the history). Oracle: truth table of base AND everything appended so far, after every Solve; Unsat is sticky. Non-trivial = some Solve after an append had to search (decision or conflict) or the verdict changed along the history."
 }
 func (c09) Assumptions() []string {
 	return []string{"truth-table reference is correct", "appended constraints are built by NewClause/NewCardClause/NewPBClause with arguments in their documented domain (degree >= 1, cardinality <= length)"}
@@ -224,6 +224,79 @@ func (c09) Enumerate(tier string, seed int64, yield func(string, core.Case) bool
 		}
 		if !yield("H4+pb", h2) {
 			return
+		}
+	}
+	// H5: constraints that introduce SEVERAL variables never seen before (two fresh variables, in either order, also
+	// with a gap in the numbering), appended to a solver that knows one variable: every ordered clause of length 1..3
+	// over {x1, f1, f2} without repeated variable, plus cardinality/PB constraints over the fresh variables; every pair
+	// of appends under every Solve placement, every triple from a reduced alphabet with a Solve after each append and
+	// with one Solve before the last append.
+	{
+		type vs struct {
+			b       Prob
+			x, f, g int
+		}
+		var sets []vs
+		for _, f := range [][][]int{nil, {{1}}, {{-1}}} {
+			sets = append(sets, vs{cnfProb("slicenb", f, 1, 1), 1, 2, 3})
+		}
+		sets = append(sets, vs{cnfProb("slicenb", [][]int{{1}}, 1, 1), 1, 3, 4}, vs{cnfProb("slicenb", [][]int{{-1}}, 1, 1), 1, 4, 3})
+		for _, v := range sets {
+			vars := []int{v.x, v.f, v.g}
+			var full, reduced []Con
+			var rec func(cur []int, used int)
+			rec = func(cur []int, used int) {
+				if len(cur) >= 1 {
+					c := Con{T: "cl", L: append([]int{}, cur...)}
+					full = append(full, c)
+					asc := true
+					for i := 1; i < len(cur); i++ {
+						if iabs(cur[i]) < iabs(cur[i-1]) {
+							asc = false
+						}
+					}
+					if asc || (len(cur) == 2 && iabs(cur[0]) == v.g && iabs(cur[1]) == v.f) {
+						reduced = append(reduced, c)
+					}
+				}
+				if len(cur) == 3 {
+					return
+				}
+				for i, x := range vars {
+					if used>>uint(i)&1 == 1 {
+						continue
+					}
+					rec(append(cur, x), used|1<<uint(i))
+					rec(append(cur, -x), used|1<<uint(i))
+				}
+			}
+			rec(nil, 0)
+			extra := []Con{
+				{T: "card", L: []int{v.f, v.g}, K: 1}, {T: "card", L: []int{v.g, v.f}, K: 2}, {T: "card", L: []int{-v.f, -v.g}, K: 1},
+				{T: "card", L: []int{v.x, v.f, v.g}, K: 2}, {T: "card", L: []int{v.x, v.g, v.f}, K: 1}, {T: "card", L: []int{-v.x, v.f, v.g}, K: 2},
+				{T: "ge", L: []int{v.f, v.g}, W: []int{2, 1}, K: 2}, {T: "ge", L: []int{v.x, v.g, v.f}, W: []int{2, 1, 1}, K: 2}, {T: "ge", L: []int{v.x, v.f, v.g}, W: []int{1, 1, 1}, K: 1},
+			}
+			full = append(full, extra...)
+			reduced = append(reduced, extra[:4]...)
+			for _, c1 := range full {
+				for _, c2 := range full {
+					for mask := 0; mask < 4; mask++ {
+						if !yield("H5/2", histWith(v.b, []Con{c1, c2}, mask, 0)) {
+							return
+						}
+					}
+				}
+			}
+			for _, c1 := range reduced {
+				for _, c2 := range reduced {
+					for _, c3 := range reduced {
+						cs := []Con{c1, c2, c3}
+						if !yield("H5/3", histWith(v.b, cs, 7, 0)) || !yield("H5/3", histWith(v.b, cs, 4, 0)) || !yield("H5/3", histWith(v.b, cs, 0, 0)) {
+							return
+						}
+					}
+				}
+			}
 		}
 	}
 	// H3: three appended short clauses over 2 variables (+ unit clauses on a fresh third), solve after each
@@ -358,3 +431,10 @@ func (c09) Exec(cc core.Case, r *core.Rec) []core.Failure {
 }
 
 func init() { core.Register(c09{}) }
+
+func iabs(x int) int {
+	if x < 0 {
+		return -x
+	}
+	return x
+}
